@@ -236,13 +236,42 @@ type result struct {
 	Err   string `json:"err"`
 }
 
+// the stock loggers write to os.Stderr as it is when the option is built: silence it for this test process
+func init() {
+	if f, err := os.OpenFile(os.DevNull, os.O_WRONLY, 0); err == nil {
+		os.Stderr = f
+	}
+}
+
+// logChoice derives the client's logging option from the script, so that a replay makes the same choice
+func logChoice(script [][]reply) int {
+	h := 7
+	for _, rs := range script {
+		h = h*31 + len(rs)
+		for _, r := range rs {
+			h = h*31 + r.A + len(r.T) + len(r.Sid)
+		}
+	}
+	if h < 0 {
+		h = -h
+	}
+	return h % 4
+}
+
 func run4(c struct {
 	Tries  int       `json:"tries"`
 	Script [][]reply `json:"script"`
 }, extra bool) map[string]any {
 	conn := &rconn{proto: 4, script: c.Script, wake: make(chan struct{}, 1), sent: map[int][]byte{}, epoch: time.Now()}
-	cl, err := nclient4.NewWithConn(conn, mac, nclient4.WithRetry(c.Tries), nclient4.WithTimeout(time.Second),
-		nclient4.WithServerAddr(&net.UDPAddr{IP: net.IPv4bcast, Port: 67}))
+	opts4 := []nclient4.ClientOpt{nclient4.WithRetry(c.Tries), nclient4.WithTimeout(time.Second),
+		nclient4.WithServerAddr(&net.UDPAddr{IP: net.IPv4bcast, Port: 67})}
+	switch logChoice(c.Script) { // any logging configuration
+	case 1:
+		opts4 = append(opts4, nclient4.WithSummaryLogger())
+	case 2:
+		opts4 = append(opts4, nclient4.WithDebugLogger())
+	}
+	cl, err := nclient4.NewWithConn(conn, mac, opts4...)
 	if err != nil {
 		panic(err)
 	}
@@ -340,7 +369,16 @@ func run6(c struct {
 	Script [][]reply `json:"script"`
 }, rapid bool) map[string]any {
 	conn := &rconn{proto: 6, script: c.Script, wake: make(chan struct{}, 1), sent: map[int][]byte{}, epoch: time.Now()}
-	cl, err := nclient6.NewWithConn(conn, mac, nclient6.WithRetry(c.Tries), nclient6.WithTimeout(time.Second))
+	opts6 := []nclient6.ClientOpt{nclient6.WithRetry(c.Tries), nclient6.WithTimeout(time.Second)}
+	switch logChoice(c.Script) { // any logging configuration
+	case 1:
+		opts6 = append(opts6, nclient6.WithSummaryLogger())
+	case 2:
+		opts6 = append(opts6, nclient6.WithDebugLogger())
+	case 3:
+		opts6 = append(opts6, nclient6.WithLogDroppedPackets())
+	}
+	cl, err := nclient6.NewWithConn(conn, mac, opts6...)
 	if err != nil {
 		panic(err)
 	}
